@@ -368,7 +368,7 @@ package security
 //@   props C06
 //@   assert before call Message).PutClassAd #1 unknown_session_is_told_so: [C06] adKind[arg2]["ReturnCode"] == 1 && adStr[arg2]["ReturnCode"] == "SID_NOT_FOUND" && wantResponse
 //@   assert before call Message).PutClassAd #2 accepted_session_is_told_so: [C06] adStr[arg2]["ReturnCode"] == "AUTHORIZED" && adStr[arg2]["Sid"] == sessionID && wantResponse
-//@   assert before call Authenticator).setupStreamEncryption #1 identity_of_the_original_handshake: [C06] entry.policy != nil ==> (adKind[entry.policy]["User"] == 1 ==> arg1.User == adStr[entry.policy]["User"]) && (adKind[entry.policy]["Authenticated"] == 3 ==> arg1.Authentication == (adInt[entry.policy]["Authenticated"] == 1))
+//@   assert before call Authenticator).setupStreamEncryption #1 identity_of_the_original_handshake: [C06 C05] entry.policy != nil ==> (adKind[entry.policy]["User"] == 1 ==> arg1.User == adStr[entry.policy]["User"]) && (adKind[entry.policy]["Authenticated"] == 3 ==> arg1.Authentication == (adInt[entry.policy]["Authenticated"] == 1))
 //@   nocall [C19] caller_context_threaded: context.Background
 //@   nocall [C19] caller_context_threaded2: context.WithoutCancel
 //@   nocall [C19] caller_context_threaded3: context.TODO
@@ -423,6 +423,7 @@ package security
 //@   assert before call Authenticator).handleClientAuthentication #1 answer_is_what_the_server_sent: [C10 C03] adKind[serverAd]["Authentication"] == 1 ==> negotiation.ServerConfig.Authentication == adStr[serverAd]["Authentication"]
 //@   assert before call Authenticator).handleClientAuthentication #1 peer_key_is_what_the_server_sent: [C10 C03] (adKind[serverAd]["ECDHPublicKey"] == 1 ==> negotiation.ServerConfig.ECDHPublicKey == adStr[serverAd]["ECDHPublicKey"]) && (adKind[serverAd]["ECDHPublicKey"] == 0 ==> negotiation.ServerConfig.ECDHPublicKey == "")
 //@   ensures post_auth_denial_honoured: [C03] err == nil ==> !(adKind[postAuthAd]["ReturnCode"] == 1 && adStr[postAuthAd]["ReturnCode"] != "AUTHORIZED")
+//@   ensures session_id_is_what_the_server_sent: [C10] err == nil && adKind[postAuthAd]["Sid"] == 1 ==> result.SessionId == adStr[postAuthAd]["Sid"]
 //@   nocall [C19] caller_context_threaded: context.Background
 //@   nocall [C19] caller_context_threaded2: context.WithoutCancel
 //@   nocall [C19] caller_context_threaded3: context.TODO
@@ -474,8 +475,8 @@ package security
 //@   assert before call NewSessionEntry #1 keyed_entry: arg2 != nil && arg0 == sessionID && arg6 == a.config.SecurityTag
 
 //@ func (*Authenticator).createPostAuthAd (a, negotiation) (result)
-//@   props C06 C03
-//@   ensures authorised_reply: [C03 C06] adStr[result]["ReturnCode"] == "AUTHORIZED" && adKind[result]["Sid"] == 1 && adStr[result]["Sid"] == negotiation.SessionId && adKind[result]["ValidCommands"] == 1
+//@   props C06 C03 C10
+//@   ensures authorised_reply: [C03 C06 C10] adStr[result]["ReturnCode"] == "AUTHORIZED" && adKind[result]["Sid"] == 1 && adStr[result]["Sid"] == negotiation.SessionId && adKind[result]["ValidCommands"] == 1
 //@   requires given: a.config != nil && negotiation != nil && negotiation.ServerConfig != nil
 //@   preserves security.SecurityConfig security.Authenticator stream.Stream
 //@   ensures outcome_kept: negotiation.SessionResumed == old(negotiation.SessionResumed) && negotiation.Encryption == old(negotiation.Encryption) && negotiation.Authentication == old(negotiation.Authentication) && negotiation.ServerConfig == old(negotiation.ServerConfig) && negotiation.ClientConfig == old(negotiation.ClientConfig)
